@@ -31,7 +31,7 @@ from vlib import vZ, vlist, vopt
 LEVEL = "proof"
 TRUSTED_BASE = [
     "Coq 8.16.1 kernel + vm_compute (evaluation of the sparse reference on every case); no native_compute",
-    "axioms: none (Print Assumptions: Closed under the global context for all 33 C16 theorems)",
+    "axioms: none (Print Assumptions: Closed under the global context for all 35 C16 theorems)",
     "Model/SparseOps.v as the sparse-only reference (proved: den of every operation = NumPy meaning; longest "
     "list built <= stored elements [+ rows for the GCXS-like form], independent of size(shape)); its result is sorted "
     "with Coq's verified merge sort and pruned (canon_den, canon_eq_sound) before the raw coords/data are compared",
@@ -101,6 +101,9 @@ def _warm():
     for case in gen_cases("tiny", rng, Scale(tiny=True)):
         try:
             arrs = [vlib.build_array(s) for s in case["inputs"]]
+            if "steps" in case:
+                _run_steps(case, arrs)
+                continue
             r = _apply(case["call"], arrs)
             r = _post(case.get("post"), r, arrs)
             if not isinstance(r, dict):
@@ -206,6 +209,11 @@ def _apply(call, arrs):
         return x.nonzero()
     if op == "sort":
         return sparse.sort(x, axis=call[1])
+    if op == "pad":
+        ax, lo, hi = call[1], call[2], call[3]
+        return sparse.pad(x, tuple((lo, hi) if i == ax else (0, 0) for i in range(x.ndim)))
+    if op == "argmax":
+        return sparse.argmax(x, axis=call[1])
     raise ValueError(f"unknown op {op}")
 
 
@@ -234,8 +242,62 @@ def _post(post, r, arrs):
     return r
 
 
+def _snapshot(arrs):
+    """the bytes of every operand's arrays (+ shape and fill): an operation must leave them untouched"""
+    import numpy as np
+    import sparse
+    out = []
+    for a in arrs:
+        if isinstance(a, sparse.COO):
+            out.append(("coo", a.shape, np.asarray(a.coords).tobytes(), str(a.coords.dtype), np.asarray(a.data).tobytes(), repr(a.fill_value)))
+        elif isinstance(a, sparse.GCXS):
+            out.append(("gcxs", a.shape, np.asarray(a.indices).tobytes(), np.asarray(a.indptr).tobytes() if a.ndim >= 2 else b"",
+                        np.asarray(a.data).tobytes(), repr(a.fill_value), a.compressed_axes))
+        elif isinstance(a, sparse.DOK):
+            out.append(("dok", a.shape, sorted((tuple(int(i) for i in k), repr(v)) for k, v in a.data.items()), repr(a.fill_value)))
+        else:
+            out.append(("?",))
+    return out
+
+
+def _run_steps(case, arrs):
+    """a multi-step scenario on ONE operand object: every step is a call on the same arrays (results of earlier steps
+    may be combined with the operand: x + op(x)); after every step the operands' bytes are compared with the snapshot
+    taken before the first step"""
+    snap = _snapshot(arrs)
+    results = []
+    outs = []
+    for st in case["steps"]:
+        t0 = time.time()
+        try:
+            if st["call"][0] == "add_prev":
+                r = arrs[0] + results[st["call"][1]]
+            else:
+                r = _apply(st["call"], arrs)
+        except BaseException as ex:  # noqa: BLE001
+            r = ex
+        secs = time.time() - t0
+        results.append(r)
+        try:
+            o = r if isinstance(r, BaseException) else _post(st.get("post"), r, arrs)
+            o = o if isinstance(o, dict) else vlib.plain(o)
+        except BaseException as ex:  # noqa: BLE001
+            o = {"k": "other", "repr": f"POST FAILED {type(ex).__name__}: {ex}"[:200]}
+        if isinstance(r, BaseException):
+            o["msg"] = str(r)[:200]
+        o["secs"] = round(secs, 3)
+        try:
+            o["operand_changed"] = _snapshot(arrs) != snap
+        except BaseException as ex:  # noqa: BLE001
+            o["operand_changed"] = True
+            o["snapshot_error"] = str(ex)[:100]
+        outs.append(o)
+    return outs
+
+
 def impl_case(case):
-    """worker entry: run one call in a forked child under the limits; returns a plain() dict with timing"""
+    """worker entry: run one call (or one multi-step scenario) in a forked child under the limits; returns a plain()
+    dict with timing (a scenario: {"k": "seq", "steps": [plain dict per step]})"""
     _warm()
     rd, wr = os.pipe()
     pid = os.fork()
@@ -248,7 +310,14 @@ def impl_case(case):
             except BaseException as ex:  # noqa: BLE001
                 out = {"k": "other", "repr": f"BUILD FAILED {type(ex).__name__}: {ex}"[:200], "build_failed": True}
                 arrs = None
-            if arrs is not None:
+            if arrs is not None and "steps" in case:
+                soft, hard = resource.getrlimit(resource.RLIMIT_AS)
+                resource.setrlimit(resource.RLIMIT_AS, (_vmsize() + HEADROOM, hard))
+                r0 = resource.getrusage(resource.RUSAGE_SELF).ru_maxrss
+                steps = _run_steps(case, arrs)
+                r1 = resource.getrusage(resource.RUSAGE_SELF).ru_maxrss
+                out = {"k": "seq", "steps": steps, "rss_mb": max(0, (r1 - r0) // 1024), "secs": round(sum(o["secs"] for o in steps), 3)}
+            elif arrs is not None:
                 soft, hard = resource.getrlimit(resource.RLIMIT_AS)
                 resource.setrlimit(resource.RLIMIT_AS, (_vmsize() + HEADROOM, hard))
                 r0 = resource.getrusage(resource.RUSAGE_SELF).ru_maxrss
@@ -858,6 +927,52 @@ def gen_cases(tier, rng, sc=None):
         cases.append(mk_case("coo:sort(axis=2)", "misc", [x], ["sort", 2], ("sortlast", IN0)))
         cases.append(mk_case("coo:sort(axis=-1)", "misc", [x], ["sort", -1], ("sortlast", IN0)))
 
+    # ---------------------------------------------------------------- multi-step scenarios on ONE operand object
+    # op(x) first (flip / roll / pad / transpose / reshape / sort / argmax / squeeze: the functions that do coordinate
+    # arithmetic), then x is used again: a partial sum, one stored element, one slab, and x + op(x).  Every answer is
+    # computed by the reference from the ORIGINAL coordinate list, and the operand's bytes are compared after each step.
+    def followups(x, first_expr, same_shape):
+        shape = x["shape"]
+        nd = len(shape)
+        pos = rng.choice(x["coords"])
+        ax = rng.randrange(nd)
+        mask = [i == ax for i in range(nd)]
+        st = [{"call": ["reduce", "sum", [ax] if nd > 1 else None], "expr": ("sum", mask, IN0), "rkind": "sparse" if nd > 1 else "scalar"},
+              {"call": ["getitem", list(pos)], "expr": ("reshape", [], ("get", [("s", p_, p_ + 1, None) for p_ in pos], IN0)), "rkind": "scalar"}]
+        if nd > 1:
+            slab = [pos[0]] + [FULL] * (nd - 1)
+            st.append({"call": ["getitem", slab], "expr": ("get", slab, IN0), "rkind": "sparse"})
+        if same_shape and first_expr is not None:
+            st.append({"call": ["add_prev", 0], "expr": ("zip", "BAdd", IN0, first_expr), "rkind": "sparse"})
+        return st
+
+    def seq(name, inputs, first_call, first_expr, same_shape, first_rkind="sparse"):
+        steps = [{"call": first_call, "expr": first_expr, "rkind": first_rkind}] + followups(inputs[0], first_expr, same_shape)
+        return {"name": "seq:" + name, "op": "seq:" + first_call[0], "family": "sequence", "fmt": inputs[0]["format"], "inputs": inputs,
+                "steps": steps, "expect_clause": None}
+
+    for _ in range(n_rep):
+        for shape in [S3, P3, M2]:
+            nd = len(shape)
+            x = rand_spec(rng, shape, pick_nnz(rng, tier, big_ok=False))
+            ax = rng.randrange(nd)
+            cases.append(seq(f"flip({ax})", [x], ["flip", ax], e_flip(nd, [ax], IN0), True))
+            cases.append(seq("flip(None)", [x], ["flip", None], e_flip(nd, list(range(nd)), IN0), True))
+            sft = rng.choice([1, -3, shape[ax] - 1, 123456])
+            cases.append(seq(f"roll({sft},{ax})", [x], ["roll", sft, ax], e_roll_axis(shape, sft, ax, IN0), True))
+            e = {"shape": [1 if i == ax else d for i, d in enumerate(shape)], "coords": [], "data": [], "fill": 0, "format": "coo", "caxes": None}
+            cases.append(seq(f"pad(axis {ax})", [x, e], ["pad", ax, 1, 1], ("concat", ax, ("concat", ax, IN1, IN0), IN1), False))
+            perm = list(range(nd))
+            rng.shuffle(perm)
+            cases.append(seq(f"transpose({perm})", [x], ["transpose", perm], ("trans", perm, IN0), shape == S3 or nd == 2))
+            sh = [shape[0] * shape[1]] + list(shape[2:]) if nd >= 3 else [shape[0] // 2, shape[1] * 2]
+            cases.append(seq(f"reshape({sh})", [x], ["reshape", sh], ("reshape", sh, IN0), False))
+        x = rand_spec(rng, K3, pick_nnz(rng, tier, big_ok=False), small={0: 6, 1: 5})
+        cases.append(seq("sort(axis=2)", [x], ["sort", 2], ("sortlast", IN0), True))
+        cases.append(seq("argmax(axis=2)", [x], ["argmax", 2], None, False))
+        b = rand_spec(rng, sc.BC[0], pick_nnz(rng, tier, big_ok=False))
+        cases.append(seq("squeeze", [b], ["squeeze", None], ("reshape", [d for d in sc.BC[0] if d != 1], IN0), False))
+
     if tier == "quick":
         # a few operands with thousands of stored elements (the reference is quadratic in Coq for zip / reductions)
         big = rand_spec(rng, S3, 3000, small={0: 50})
@@ -886,7 +1001,8 @@ CODE_MEANING = {1: "the call failed or did not return (exception / MemoryError /
                 2: "a dense array or another object where a sparse result is required",
                 3: "the result is ill-formed (Corr/SArr.v sarr_wfb)", 4: "shape or fill value differs from the reference",
                 5: "values differ from the sparse reference", 6: "the reference could not be evaluated (model or harness defect)",
-                7: "GCXS arrays differ from the reference rows"}
+                7: "GCXS arrays differ from the reference rows",
+                8: "the call returned the right result but modified its operand (coords/data bytes differ from before the call)"}
 
 
 def clause_of(case, res, code):
@@ -916,12 +1032,38 @@ def campaign(build, tier, seed, report, budget=1):
         res = vlib.run_impl("props.c16", "impl_case", cases, workers=6, per_case_timeout=TLIMIT + 20.0)
         _IMPL_CACHE[key] = (cases, res, time.time() - t0)
     cases, res, t_impl = _IMPL_CACHE[key]
-    lits = [lit_case(c, r) for c, r in zip(cases, res, strict=True)]
+    n_calls = len(cases)
+    # a multi-step scenario becomes one judged case per step (same operands, the step's own reference expression)
+    flat_c, flat_r = [], []
+    for c, r in zip(cases, res, strict=True):
+        if "steps" not in c:
+            flat_c.append(c)
+            flat_r.append(r)
+            continue
+        rs = r.get("steps") if isinstance(r, dict) and r.get("k") == "seq" else None
+        done = []
+        for k, st in enumerate(c["steps"]):
+            done.append(st["call"])
+            sub = {"name": c["name"] + f" step {k}: {st['call']}", "op": c["op"] if k == 0 else c["op"] + ">" + st["call"][0],
+                   "family": "sequence", "fmt": c["fmt"], "inputs": c["inputs"], "call": st["call"], "expr": st["expr"],
+                   "rkind": st["rkind"], "post": st.get("post"), "expect_clause": None, "sequence": list(done), "seq_case": c}
+            flat_c.append(sub)
+            flat_r.append(rs[k] if rs is not None else r)      # the whole scenario failed / timed out: every step inherits it
+    cases, res = flat_c, flat_r
+    judged = [i for i, c in enumerate(cases) if c["expr"] is not None]
+    lits = [lit_case(cases[i], res[i]) for i in judged]
     # cases with many stored elements are quadratic in Coq: small chunks so that they run in parallel
     t0 = time.time()
-    verdicts = dict(build.judge("c16", "From Verif Require Import Py Shape COO GCXS SArr PySlice SparseOps C16Judge.",
-                                "c16_case", "judge_c16", lits, chunk=12, timeout=900))
+    verdicts = {judged[j]: code for j, code in build.judge(
+        "c16", "From Verif Require Import Py Shape COO GCXS SArr PySlice SparseOps C16Judge.",
+        "c16_case", "judge_c16", lits, chunk=12, timeout=900)}
     t_coq = time.time() - t0
+    for i, (c, r) in enumerate(zip(cases, res, strict=True)):
+        failed = (not isinstance(r, dict)) or r.get("hang") or r.get("k") in ("exc", None) or "crash" in r
+        if c["expr"] is None and failed:
+            verdicts[i] = 1                 # a step without a reference expression (argmax) must still complete
+        if isinstance(r, dict) and r.get("operand_changed") and i not in verdicts:
+            verdicts[i] = 8                 # right answer, but the call rewrote its operand
     viol = []
     tags = {}
     rss_max, rss_arg, secs_max = 0, None, 0.0
@@ -938,8 +1080,8 @@ def campaign(build, tier, seed, report, budget=1):
         logical.append(max(prod(s_["shape"]) for s_ in c["inputs"]))
         if code == 0:
             continue
-        kind = {1: "value", 2: "value", 3: "value", 4: "value", 5: "value", 6: "representation", 7: "representation"}[code]
-        small = dict(c)
+        kind = {1: "value", 2: "value", 3: "value", 4: "value", 5: "value", 6: "representation", 7: "representation", 8: "value"}[code]
+        small = {k_: v_ for k_, v_ in c.items() if k_ != "seq_case"}
         small["inputs"] = [dict(s, coords=s["coords"][:400], data=s["data"][:400]) for s in c["inputs"]] if any(len(s["coords"]) > 400 for s in c["inputs"]) else c["inputs"]
         viol.append({"property": "C16", "op": c["op"], "call": c["name"],
                      "family": c["family"], "format": c["fmt"], "kind": kind, "clause": clause_of(c, r, code),
@@ -947,9 +1089,12 @@ def campaign(build, tier, seed, report, budget=1):
                      "impl": {k: v for k, v in (r or {}).items() if k in ("k", "exc", "cls", "msg", "hang", "secs", "rss_mb", "shape", "repr", "crash")},
                      "limits": {"address_space": "baseline + 3 GiB", "seconds": TLIMIT},
                      "minimal_repro": MINIMAL_REPRO.get(clause_of(c, r, code)),
-                     "replay_py": replay_program(c)})
+                     "sequence": c.get("sequence"),
+                     "replay_py": replay_program(c.get("seq_case", c))})
     cov = report["coverage"]
     cov["evaluations"] = len(cases)
+    cov["forked_calls_or_scenarios"] = n_calls
+    cov["multi_step_scenarios"] = len({id(c["seq_case"]) for c in cases if "seq_case" in c})
     cov["distinct_nontrivial"] = len({(c["name"], tuple(c["inputs"][0]["shape"]), len(c["inputs"][0]["coords"])) for c in cases})
     cov["rule"] = ("one evaluation = one API call on operands with 10^12..10^18 logical elements and 3..3000 stored elements, run in a "
                    "forked child under RLIMIT_AS = baseline + 3 GiB and 30 s, compared inside Coq with the sparse-only reference; "
@@ -970,7 +1115,7 @@ def campaign(build, tier, seed, report, budget=1):
     cov["wall_coq_cases_s"] = round(t_coq, 1)
     cov["differential_only"] = ["sort along the last axis (Corr/C16Judge.v sp_sort_last has no theorem)",
                                 "mean / var (checked as mean*count = sum on power-of-two extents)"]
-    cov["samples"] = [{"case": {k: (v if k != "inputs" else [dict(s, coords=s["coords"][:5], data=s["data"][:5]) for s in v]) for k, v in cases[i].items()},
+    cov["samples"] = [{"case": {k: (v if k != "inputs" else [dict(s, coords=s["coords"][:5], data=s["data"][:5]) for s in v]) for k, v in cases[i].items() if k != "seq_case"},
                        "impl": {k: (v if not isinstance(v, list) else v[:6]) for k, v in (res[i] or {}).items()}, "verdict": verdicts.get(i, 0)}
                       for i in (0, len(cases) // 3, 2 * len(cases) // 3, len(cases) - 1)]
     report["notes"].append("partial: actual peak memory and NumPy temporaries are runtime behaviour; the bound is proved on the "
